@@ -64,6 +64,13 @@ def member_space(thorough):
         out.append([base(2, name=(b"n" * L) or b"x") if L else base(2, method=hx(b"-lhd-"), exts=[[2, hx(b"onlydir\xff")]])])
         if L and L < 200:
             out.append([base(1, name=b"d\\" + b"m" * L)])
+    # bytes that must be shown as '?': in the name, the path and the link target
+    for b in (0x01, 0x1F, 0x7F, 0x80, 0xFF, 0x09, 0x0A, 0x1B):
+        ch = bytes([b])
+        out.append([base(2, name=b"na" + ch + b"me")])
+        out.append([base(1, name=b"d" + ch + b"r\\na" + ch + b"me")])
+        out.append([base(2, size=5, exts=[[2, hx(b"pa" + ch + b"th\xff")], [1, hx(b"n")]])])
+        out.append([with_ext(base(2, name=b"lnk|tg" + ch + b"t", method=hx(b"-lhd-"), size=0, packed=0), 0x50, struct.pack("<H", 0o120777))])
     # links, directories, every level
     for lvl in (0, 1, 2, 3):
         if lvl <= 1:
